@@ -46,8 +46,8 @@ impl<'n> TryFromNode<'n> for Field {
         } else {
             node.attribute("minOccurs") == Some("0") || parent_is_optional
         };
-        let parent_is_vec = node.parent().and_then(|n| n.attribute("maxOccurs")) == Some("unbounded");
-        let is_vec = Node::attribute(&node, "maxOccurs") == Some("unbounded") || parent_is_vec;
+        let parent_is_vec = may_repeat(node.parent().and_then(|n| n.attribute("maxOccurs")));
+        let is_vec = may_repeat(Node::attribute(&node, "maxOccurs")) || parent_is_vec;
         let is_choice = node.parent().is_some_and(|n| n.tag_name().name() == "choice");
 
         // check if this is an any type
@@ -240,6 +240,11 @@ impl Display for RustFieldType {
             }
         }
     }
+}
+
+/// `maxOccurs` allows more than one occurrence: "unbounded" or a number above 1
+fn may_repeat(max_occurs: Option<&str>) -> bool {
+    max_occurs.is_some_and(|m| m == "unbounded" || m.parse::<u64>().is_ok_and(|n| n > 1))
 }
 
 fn split_type(node_type: &str) -> (&str, Option<&str>) {
